@@ -216,6 +216,10 @@ func lcRun(t *testing.T, ops []string, o *Out) {
 			closed := false
 			for _, op := range ops {
 				name, a := kv(op)
+				if s.ic == nil && name != "new" && name != "end" {
+					o.P("bad-op")
+					continue
+				}
 				switch name {
 				case "new":
 					f, err := lcKinds[a["kind"]]()
